@@ -43,6 +43,8 @@ pub enum TOp {
     EvictAll,
     /// get_or_fetch with an origin that resolves at once; the calling thread drives the fetch task.
     Fetch { k: u64 },
+    /// resize(c): the per-shard helper threads are controlled threads too (foyer-memory's `verif` seam).
+    Resize { c: usize },
 }
 
 #[derive(Debug, Clone, Serialize, Deserialize)]
@@ -56,6 +58,14 @@ pub struct TJob {
     /// Entries of this key weigh 0 (all others 1): `usage` no longer tells whether a shard is empty.
     #[serde(default)]
     pub zero_weight_key: Option<u64>,
+    /// Every atomic operation on a record's reference count / flags is a scheduling point as well
+    /// (foyer-memory's `verif` seam), not only lock operations.
+    #[serde(default)]
+    pub atomic_points: bool,
+    /// The cache's admission filter rejects every value produced by a `Fetch` origin: fetched records are
+    /// phantoms (handed to the callers, never indexed).
+    #[serde(default)]
+    pub reject_fetched: bool,
 }
 
 #[derive(Debug, Clone)]
@@ -88,6 +98,11 @@ struct Shared {
     leaves: Mutex<BTreeMap<u64, Vec<u8>>>,
     /// get_or_fetch calls: (key, the value its origin would return, what the call returned, origin ran).
     fetches: Mutex<Vec<(u64, u64, Option<u64>, bool)>>,
+    /// Capacity set by the most recently completed resize (0: never resized).
+    last_capacity: AtomicU64,
+    /// Values the admission filter rejects (their records are phantoms: never admitted, so neither their
+    /// notifications nor their "evictions" count).
+    rejected: Mutex<Vec<u64>>,
 }
 
 struct Listener {
@@ -106,7 +121,7 @@ impl EventListener for Listener {
             Event::Remove => 2,
             Event::Clear => 3,
         });
-        if reason == Event::Evict {
+        if reason == Event::Evict && !self.sh.rejected.lock().unwrap().contains(value) {
             self.sh.evictions.fetch_add(1, Ordering::SeqCst);
             if self.lru {
                 let held = self.sh.held_lookups.lock().unwrap().get(value).copied().unwrap_or(0);
@@ -185,6 +200,16 @@ fn run_ops(cache: &TC, sh: &Arc<Shared>, thread: usize, ops: &[TOp]) -> Vec<Held
             TOp::EvictAll => {
                 cache.evict_all();
                 Obs::Lookup { key: u64::MAX, kind: "evict_all", returned: None }
+            }
+            TOp::Resize { c } => {
+                let ok = cache.resize(c).is_ok();
+                if ok {
+                    sh.last_capacity.store(c as u64, Ordering::SeqCst);
+                }
+                if !ok {
+                    sh.complaints.lock().unwrap().push(("X.resize-error".into(), format!("resize({c}) returned an error")));
+                }
+                Obs::Lookup { key: u64::MAX, kind: "resize", returned: None }
             }
             TOp::Fetch { k } => {
                 use std::future::Future;
@@ -385,6 +410,16 @@ fn execute(job: &TJob, ctx: Arc<Mutex<Ctx>>, on_deadlock: sched::DeadlockHandler
         max_steps: 20_000,
         point_after_unlock: true,
     });
+    // resize() helpers become controlled threads; optionally every record atomic is a scheduling point.
+    foyer_memory::verif::set_spawner(Some(Arc::new(|job: foyer_memory::verif::Job| {
+        let h = sched::spawn("resize-helper", job);
+        Box::new(move || {
+            let _ = sched::join(h);
+        }) as foyer_memory::verif::Joiner
+    })));
+    if job.atomic_points {
+        foyer_memory::verif::set_atomic_point(Some(|| sched::step_point("atomic")));
+    }
     let res = std::panic::catch_unwind(std::panic::AssertUnwindSafe(|| {
         let cache: TC = CacheBuilder::new(job.capacity)
             .with_shards(job.shards)
@@ -393,6 +428,19 @@ fn execute(job: &TJob, ctx: Arc<Mutex<Ctx>>, on_deadlock: sched::DeadlockHandler
             .with_weighter({
                 let z = job.zero_weight_key;
                 move |k: &u64, _: &u64| usize::from(Some(*k) != z)
+            })
+            .with_filter({
+                let rejected: Vec<u64> = if job.reject_fetched {
+                    job.threads
+                        .iter()
+                        .enumerate()
+                        .flat_map(|(ti, ops)| ops.iter().enumerate().filter(|(_, o)| matches!(o, TOp::Fetch { .. })).map(move |(i, _)| val_of(ti + 1, i)))
+                        .collect()
+                } else {
+                    vec![]
+                };
+                *sh.rejected.lock().unwrap() = rejected.clone();
+                move |_: &u64, v: &u64| !rejected.contains(v)
             })
             .with_event_listener(Arc::new(Listener {
                 sh: sh.clone(),
@@ -450,6 +498,31 @@ fn execute(job: &TJob, ctx: Arc<Mutex<Ctx>>, on_deadlock: sched::DeadlockHandler
             let resp = sh.clock.fetch_add(1, Ordering::SeqCst);
             sh.log.lock().unwrap().push(Rec { thread: 0, invoke, resp, obs: Obs::Lookup { key: k, kind: "final-get", returned: r } });
         }
+        // No capacity eviction happened and nothing removes: a key that an explicit insert put into the cache is
+        // still there at the end (the only other writers are fetches, whose results never take an entry out).
+        {
+            let removing = job.prologue.iter().chain(job.threads.iter().flatten()).any(|o| matches!(o, TOp::Rm { .. } | TOp::Clear | TOp::EvictAll | TOp::Resize { .. }));
+            if !removing && sh.evictions.load(Ordering::SeqCst) == 0 && job.zero_weight_key.is_none() {
+                let log = sh.log.lock().unwrap();
+                let fetched: Vec<u64> = sh.fetches.lock().unwrap().iter().map(|f| f.1).collect();
+                for r in log.iter() {
+                    if let Obs::Insert { key, val } = r.obs {
+                        if fetched.contains(&val) || r.resp == u64::MAX {
+                            continue;
+                        }
+                        let gone = log.iter().any(|x| matches!(x.obs, Obs::Lookup { key: k2, kind: "final-get", returned: None } if k2 == key));
+                        if gone {
+                            let fetch_on_key = job.threads.iter().flatten().any(|o| matches!(o, TOp::Fetch { k } if *k == key));
+                            sh.complaints.lock().unwrap().push((
+                                if fetch_on_key { "F.late-fetch-removed-insert".into() } else { "H.lost-insert".into() },
+                                format!("insert({key}) of value {val} completed, nothing was evicted, removed or cleared, yet the final lookup of key {key} misses"),
+                            ));
+                            break;
+                        }
+                    }
+                }
+            }
+        }
         // C11 at thread granularity: a get_or_fetch call that was answered with the value of an explicit
         // insert (so that insert completed while the fetch was waiting on its origin) must not have its own
         // origin value in the cache afterwards — the late fetch result never replaces the insert.
@@ -472,6 +545,13 @@ fn execute(job: &TJob, ctx: Arc<Mutex<Ctx>>, on_deadlock: sched::DeadlockHandler
         // quiescent epilogue: accounting must be consistent and within capacity
         let usage = cache.usage();
         let entries = cache.entries();
+        // With no handle outstanding, a resize that completed last leaves every shard within its new capacity:
+        // usage <= capacity unless a later insert raced with it (inserts keep the bound themselves).
+        let cap = sh.last_capacity.load(Ordering::SeqCst) as usize;
+        let holds = job.prologue.iter().chain(job.threads.iter().flatten()).any(|o| matches!(o, TOp::Get { hold: true, .. }));
+        if cap > 0 && job.zero_weight_key.is_none() && !holds && usage > cap.max(job.shards) {
+            sh.complaints.lock().unwrap().push(("W.over-capacity-after-resize".into(), format!("after all threads finished usage() = {usage} exceeds the capacity {cap} set by the last completed resize")));
+        }
         if usage != entries && job.zero_weight_key.is_none() {
             sh.complaints.lock().unwrap().push(("W.usage-eq".into(), format!("after all threads finished usage() = {usage} but entries() = {entries} (unit weights)")));
         }
@@ -488,6 +568,9 @@ fn execute(job: &TJob, ctx: Arc<Mutex<Ctx>>, on_deadlock: sched::DeadlockHandler
                     if n == 0 && (r.resp == u64::MAX || maybe.contains(&val)) {
                         continue;
                     }
+                    if sh.rejected.lock().unwrap().contains(&val) {
+                        continue;
+                    }
                     if n != 1 {
                         sh.complaints.lock().unwrap().push((
                             if n == 0 { "L.missing-leave".to_string() } else { "L.twice".to_string() },
@@ -500,6 +583,8 @@ fn execute(job: &TJob, ctx: Arc<Mutex<Ctx>>, on_deadlock: sched::DeadlockHandler
         panics
     }));
     let summary = sched::end();
+    foyer_memory::verif::set_atomic_point(None);
+    crate::memdrive::install_inline_spawner();
     let mut complaints: Vec<(String, String)> = std::mem::take(&mut *sh.complaints.lock().unwrap());
     match res {
         Ok(panics) => {
@@ -550,7 +635,7 @@ pub struct TProp {
 pub fn c02() -> TProp {
     TProp {
         id: "C02",
-        owned: vec!["R.", "H.", "K.", "X.", "W.", "P."],
+        owned: vec!["R.", "H.", "K.", "X.", "W.", "P.", "F.late-fetch-removed"],
         jobs,
         rule: "",
     }
@@ -600,8 +685,23 @@ fn jobs_c11(tier: Tier) -> Vec<TJob> {
                     threads: threads.clone(),
                     bound: if tier == Tier::Thorough && threads.len() < 3 { 3 } else { 2 },
                     zero_weight_key: None,
+                    atomic_points: false,
+                    reject_fetched: false,
                 });
             }
+            // the fetched value is rejected by the admission filter (a phantom record): it must neither
+            // replace nor remove what an explicit insert put there
+            v.push(TJob {
+                algo,
+                shards: 1,
+                capacity: 4,
+                prologue: vec![],
+                threads: threads.clone(),
+                bound: if tier == Tier::Thorough && threads.len() < 3 { 3 } else { 2 },
+                zero_weight_key: None,
+                atomic_points: false,
+                reject_fetched: true,
+            });
         }
     }
     v
@@ -640,6 +740,8 @@ fn jobs_c13(tier: Tier) -> Vec<TJob> {
                 threads,
                 bound: 2,
                 zero_weight_key: None,
+                atomic_points: false,
+                reject_fetched: false,
             });
         }
     }
@@ -685,7 +787,24 @@ fn jobs_c18(tier: Tier) -> Vec<TJob> {
                 threads: threads.clone(),
                 bound: if tier == Tier::Thorough && !three { 3 } else { 2 },
                 zero_weight_key: None,
+                atomic_points: false,
+                reject_fetched: false,
             });
+            // the same two-thread programs with every atomic operation on a record's reference count and
+            // flags as an additional scheduling point (handle clone / drop / is_outdated run outside the locks)
+            if !three {
+                v.push(TJob {
+                    algo: Algo::Lru { ratio },
+                    shards: 1,
+                    capacity: 2,
+                    prologue: pro.clone(),
+                    threads: threads.clone(),
+                    bound: 2,
+                    zero_weight_key: None,
+                    atomic_points: true,
+                    reject_fetched: false,
+                });
+            }
         }
     }
     v
@@ -698,14 +817,18 @@ fn jobs_c16(tier: Tier) -> Vec<TJob> {
             if tier == Tier::Quick && threads.iter().map(|t| t.len()).sum::<usize>() > 2 && threads.len() < 3 {
                 continue;
             }
+            // resize on two shards adds two helper threads: one preemption in the quick tier
+            let resize = threads.iter().flatten().any(|o| matches!(o, TOp::Resize { .. }));
             v.push(TJob {
                 algo,
                 shards: 2,
                 capacity: 2,
                 prologue: pro,
                 threads,
-                bound: 2,
+                bound: if resize && tier == Tier::Quick { 1 } else { 2 },
                 zero_weight_key: None,
+                atomic_points: false,
+                reject_fetched: false,
             });
         }
     }
@@ -803,6 +926,9 @@ fn explore_job(prop: &TProp, job: &TJob, res: &mut ShardResult, deadline: Instan
         for (clause, msg) in out.complaints {
             if !prop.owned.iter().any(|o| clause.starts_with(o)) {
                 res.add("foreign_clause_complaints", 1);
+                if std::env::var_os("VERIF_SHOW_FOREIGN").is_some() {
+                    eprintln!("foreign {clause}: {msg} [{:?}]", job.threads);
+                }
                 continue;
             }
             let signature = sig(&clause, job);
@@ -840,7 +966,10 @@ fn programs(tier: Tier) -> Vec<(Vec<TOp>, Vec<Vec<TOp>>)> {
         TOp::Touch { k: a },
         TOp::Fetch { k: a },
     ];
-    let extra = vec![TOp::Ins { k: b }, TOp::Ins { k: c }, TOp::Clear, TOp::EvictAll, TOp::Contains { k: a }];
+    let mut extra = vec![TOp::Ins { k: b }, TOp::Ins { k: c }, TOp::Clear, TOp::EvictAll, TOp::Contains { k: a }, TOp::Resize { c: 1 }];
+    if tier == Tier::Thorough {
+        extra.push(TOp::Resize { c: 4 });
+    }
     let mut progs = vec![];
     let prologues: Vec<Vec<TOp>> = vec![vec![], vec![TOp::Ins { k: a }], vec![TOp::Ins { k: a }, TOp::Get { k: a, hold: true }]];
     // two threads, one op each (all pairs over ops_a + extra), and two ops for thread 1
@@ -848,6 +977,10 @@ fn programs(tier: Tier) -> Vec<(Vec<TOp>, Vec<Vec<TOp>>)> {
     for pro in prologues.iter() {
         for (i, x) in all.iter().enumerate() {
             for y in all.iter().skip(i) {
+                // two resizes against each other: six threads, and which capacity a shard ends with is unspecified
+                if matches!((x, y), (TOp::Resize { .. }, TOp::Resize { .. })) {
+                    continue;
+                }
                 progs.push((pro.clone(), vec![vec![*x], vec![*y]]));
             }
         }
@@ -909,6 +1042,8 @@ fn jobs(tier: Tier) -> Vec<TJob> {
                     prologue: pro,
                     threads,
                     zero_weight_key: None,
+                    atomic_points: false,
+                reject_fetched: false,
                     bound: match tier {
                         Tier::Quick => 2,
                         Tier::Thorough => {
@@ -923,6 +1058,20 @@ fn jobs(tier: Tier) -> Vec<TJob> {
             }
         }
     }
+    // Atomic operations on record reference counts / flags as scheduling points too (the handle paths that run
+    // outside the shard lock): all pairs of single operations on the contended key, and the 2-vs-1 programs.
+    let aalgos: Vec<Algo> = if tier == Tier::Quick { vec![Algo::Lru { ratio: 0.9 }, Algo::Fifo] } else { Algo::defaults() };
+    for algo in aalgos {
+        for (pro, threads) in programs(tier) {
+            if threads.len() >= 3 || threads.iter().flatten().any(|o| matches!(o, TOp::Resize { .. } | TOp::Clear | TOp::EvictAll | TOp::Contains { .. })) {
+                continue;
+            }
+            if tier == Tier::Quick && threads.iter().map(|t| t.len()).sum::<usize>() > 2 {
+                continue;
+            }
+            v.push(TJob { algo, shards: 1, capacity: 2, prologue: pro, threads, bound: 2, zero_weight_key: None, atomic_points: true, reject_fetched: false });
+        }
+    }
     // Zero-weight entries of the contended key (usage does not tell whether a shard is empty): all pairs
     // of single operations and the 2-vs-1 programs, FIFO [thorough: every algorithm], one shard.
     let zalgos: Vec<Algo> = if tier == Tier::Quick { vec![Algo::Fifo] } else { Algo::defaults() };
@@ -931,7 +1080,7 @@ fn jobs(tier: Tier) -> Vec<TJob> {
             if threads.len() >= 3 {
                 continue;
             }
-            v.push(TJob { algo, shards: 1, capacity: 2, prologue: pro, threads, bound: 2, zero_weight_key: Some(4) });
+            v.push(TJob { algo, shards: 1, capacity: 2, prologue: pro, threads, bound: 2, zero_weight_key: Some(4), atomic_points: false, reject_fetched: false });
         }
     }
     v
@@ -962,7 +1111,13 @@ impl Prop for TProp {
                 res.sample(json!({"engine": "T", "job": job}), 2);
             }
             res.add("programs", 1);
-            if !explore_job(self, job, &mut res, deadline, &so) {
+            let before = res.get("executions");
+            let t0 = Instant::now();
+            let keep = explore_job(self, job, &mut res, deadline, &so);
+            if std::env::var_os("VERIF_T_STATS").is_some() {
+                eprintln!("T job {i}: {} executions in {:.2}s :: {:?} {:?} {} shards{} bound{}", res.get("executions") - before, t0.elapsed().as_secs_f64(), job.prologue, job.threads, job.algo.short(), job.shards, job.bound);
+            }
+            if !keep {
                 break;
             }
         }
@@ -1020,9 +1175,8 @@ impl Prop for TProp {
 
     fn assumptions(&self) -> Vec<String> {
         vec![
-            "atomics (refs, flags, per-record eviction state) execute atomically between lock operations: a switch exactly between two adjacent atomics without a lock operation between them is not explored, and only sequentially consistent outcomes are modelled".into(),
-            "resize() spawns uncontrolled OS threads and is covered sequentially only (Engine S)".into(),
-            "get_or_fetch is covered by Engine V at task-poll granularity, not at thread granularity".into(),
+            "scheduling points are lock operations in every job and, in the jobs marked atomic_points, also every atomic operation on a record's reference count / flags (foyer-memory's verif seam); per-record eviction-algorithm atomics (S3-FIFO frequency, SIEVE visited bit) are not split; only sequentially consistent outcomes are modelled".into(),
+            "resize() helper threads are controlled threads (spawner seam); two resizes are not run against each other".into(),
         ]
     }
 
